@@ -673,6 +673,35 @@ impl<const LEN: usize, const M: usize> Model for CLen<LEN, M> {
     fn gen(r: &mut Rng, size: usize) -> Self { CLen { head: <FixedBytes<LEN>>::gen(r, size), items: <Vec<[u8; M]>>::gen(r, size / 2), last: <[u8; M]>::gen(r, size) } }
 }
 """)
+    # field names that are also the names of locals the templates are likely to use (not `bytes` or `decoder`: on the pinned tree a
+    # field of either name does not compile -- the decode template's own `bytes` parameter / `decoder` local is captured
+    # by the field initialisers -- so such a definition is one the macro does not accept)
+    g.items.append("""
+#[derive(Debug, Clone, PartialEq, Encode, Decode)]
+pub struct Names {
+    pub data: Vec<u8>,
+    pub buf: u16,
+    pub offset: Vec<u16>,
+    pub encoder: u8,
+    pub variable_bytes: Vec<u8>,
+    pub builder: u32,
+    pub len: u8,
+    pub items: Vec<u8>,
+}
+impl Model for Names {
+    fn ty() -> String { "(cont 1 (list (uint 1)) (uint 2) (list (uint 2)) (uint 1) (list (uint 1)) (uint 4) (uint 1) (list (uint 1)))".to_string() }
+    fn to_model(&self) -> String {
+        format!("(c {} {} {} {} {} {} {} {})", self.data.to_model(), self.buf.to_model(), self.offset.to_model(), self.encoder.to_model(),
+                self.variable_bytes.to_model(), self.builder.to_model(), self.len.to_model(), self.items.to_model())
+    }
+    fn gen(r: &mut Rng, size: usize) -> Self {
+        Names { data: <Vec<u8>>::gen(r, size / 3), buf: u16::gen(r, size), offset: <Vec<u16>>::gen(r, size / 3), encoder: u8::gen(r, size),
+                variable_bytes: <Vec<u8>>::gen(r, size / 3), builder: u32::gen(r, size), len: u8::gen(r, size), items: <Vec<u8>>::gen(r, size / 3) }
+    }
+}
+""")
+    g.derived.add("Names")
+    A(T("Names", False, sym=True, default=False, depth=2))
     for n in ("CArr", "CPkt", "CLen"):
         g.derived.add(n)
     out = []
